@@ -78,25 +78,25 @@ class MixedNormalAggregator(Aggregator):
                 y_dict[k].append(v)
         y = {k: v for k, v in y_dict.items()}
 
-        self._np = np
+        xp = np
         if all(isinstance(yi, np.ma.MaskedArray) for yi in y["loc"]) and all(
             isinstance(yi, np.ma.MaskedArray) for yi in y["scale"]
         ):
-            self._np = np.ma
+            xp = np.ma
 
-        y["loc"] = self._np.stack(y["loc"], axis=0)
-        y["scale"] = self._np.stack(y["scale"], axis=0)
+        y["loc"] = xp.stack(y["loc"], axis=0)
+        y["scale"] = xp.stack(y["scale"], axis=0)
 
         loc = y["loc"]
         scale = y["scale"]
 
-        mean_loc = self._np.average(loc, weights=weights, axis=0)
+        mean_loc = xp.average(loc, weights=weights, axis=0)
         agg = {"loc": mean_loc}
 
         if not self.decomposed_scale:
             sum_loc_scale = loc**2 + scale**2
-            mean_scale = self._np.sqrt(
-                self._np.average(sum_loc_scale, weights=weights, axis=0) - mean_loc**2
+            mean_scale = xp.sqrt(
+                xp.average(sum_loc_scale, weights=weights, axis=0) - mean_loc**2
             )
             agg["scale"] = mean_scale
 
@@ -104,11 +104,11 @@ class MixedNormalAggregator(Aggregator):
             # Here we assume that the mixture distribution is a normal distribution with a scale
             # that is the sum of the aleatoric and epistemic scales. This is a significant
             # approximation that could be improved by returning the true GMM.
-            scale_aleatoric = self._np.sqrt(
-                self._np.average(scale**2, weights=weights, axis=0),
+            scale_aleatoric = xp.sqrt(
+                xp.average(scale**2, weights=weights, axis=0),
             )
-            scale_epistemic = self._np.sqrt(
-                self._np.average((loc - mean_loc) ** 2, weights=weights, axis=0)
+            scale_epistemic = xp.sqrt(
+                xp.average((loc - mean_loc) ** 2, weights=weights, axis=0)
             )
             agg["scale_aleatoric"] = scale_aleatoric
             agg["scale_epistemic"] = scale_epistemic
